@@ -43,6 +43,9 @@ use tokio_util::codec::Decoder;
 
 type Key = [u8; 8];
 
+/* How long a client may leave a TCP connection open without sending a query. */
+const TCP_IDLE_TIMEOUT: std::time::Duration = std::time::Duration::from_secs(30);
+
 struct CookieKeys {
     next_refresh: tokio::time::Instant,
     current: Key,
@@ -789,39 +792,43 @@ impl DnsListenerHandler {
             sock.local_addr().unwrap(), /* TODO: Error? */
         );
 
-        let mut lbytes = [0u8; 2];
+        /* A client may send any number of queries over one connection (RFC7766), they are
+         * answered one after the other until it closes, or goes quiet.
+         */
+        loop {
+            let mut lbytes = [0u8; 2];
 
-        sock.read_exact(&mut lbytes)
-            .await
-            .map_err(Error::RecvError)?;
+            match tokio::time::timeout(TCP_IDLE_TIMEOUT, sock.read_exact(&mut lbytes)).await {
+                Ok(Ok(_)) => (),
+                Ok(Err(e)) if e.kind() == std::io::ErrorKind::UnexpectedEof => return Ok(()),
+                Ok(Err(e)) => return Err(Error::RecvError(e)),
+                Err(_) => return Ok(()),
+            }
 
-        let l = u16::from_be_bytes(lbytes) as usize;
-        let mut buffer = vec![0u8; l];
+            let l = u16::from_be_bytes(lbytes) as usize;
+            let mut buffer = vec![0u8; l];
 
-        sock.read_exact(&mut buffer[..])
-            .await
-            .map_err(Error::RecvError)?;
-        let timer = IN_QUERY_LATENCY.with_label_values(&["TCP"]).start_timer();
+            sock.read_exact(&mut buffer[..])
+                .await
+                .map_err(Error::RecvError)?;
+            let timer = IN_QUERY_LATENCY.with_label_values(&["TCP"]).start_timer();
 
-        let q = s.clone();
+            log::trace!(
+                "Received TCP {:?} ⇒ {:?} ({})",
+                sock_addr,
+                sock.local_addr(),
+                buffer.len()
+            );
 
-        log::trace!(
-            "Received TCP {:?} ⇒ {:?} ({})",
-            sock_addr,
-            sock.local_addr(),
-            buffer.len()
-        );
-
-        tokio::spawn(async move {
             use tokio::io::AsyncWriteExt as _;
             match Self::build_dns_message(
                 &buffer,
                 sock.local_addr().ok().map(|addr| addr.ip()).unwrap(), /* TODO: Error? */
-                sock_addr,
+                sock_addr.clone(),
                 Protocol::Tcp,
             ) {
                 Ok(msg) => {
-                    let in_reply = Self::recv_in_query(&q, &msg).await.unwrap();
+                    let in_reply = Self::recv_in_query(s, &msg).await.unwrap();
                     /* Over TCP the only limit is the two octet length prefix. */
                     let serialised = in_reply.serialise_with_size(65535);
                     let mut in_reply_bytes = Vec::with_capacity(2 + serialised.len());
@@ -832,6 +839,7 @@ impl DnsListenerHandler {
                         IN_QUERY_RESULT
                             .with_label_values(&["TCP", "send fail"])
                             .inc();
+                        return Ok(());
                     }
                     drop(timer);
                 }
@@ -840,11 +848,10 @@ impl DnsListenerHandler {
                         .with_label_values(&["TCP", "parse fail"])
                         .inc();
                     log::warn!("Failed to handle request: {}", err);
+                    return Ok(());
                 }
             }
-        });
-
-        Ok(())
+        }
     }
 
     async fn run_tcp_listener(
